@@ -612,6 +612,14 @@ pub fn case_solve(ctx: &mut Ctx, case: &Value) {
                 o => return ctx.fail_prop(case, format!("prefix run failed: {:?}", o)),
             }
         }
+        // with more than one thread the bounds of two runs may differ in the last places
+        // (summation order of the atomic adds): a threshold within rounding distance of a bound
+        // of the sequence is decided by rounding, not by the property
+        if cfg.threads != 1 && cfg.thr.is_finite() && seq.iter().any(|b| (b - cfg.thr).abs() <= 1e-9 * b.abs().max(cfg.thr.abs())) {
+            ctx.skipped_illcond += 1;
+            ctx.stat("threshold_within_rounding_of_a_bound_multi_threaded");
+            return;
+        }
         let mut cp = cfg.clone();
         cp.iters = tstar;
         cp.thr = 0.0;
